@@ -350,6 +350,12 @@ func (w *World) VerifyFunc(fs *FuncSpec) {
 					x.applyUse(s, c, iev, fi)
 				}()
 			}
+			if c.Kind == "instdepthret" {
+				// instantiation depth for the obligations generated at a return (cuts, ensures)
+				h := x.hints.clone()
+				fmt.Sscanf(c.Text, "%d", &h.InstDepth)
+				x.hints = h
+			}
 			if c.Kind == "assertret" {
 				// a cut at the return: proved as its own obligation, then available to the ensures
 				x.invPos, x.invLoop = token.NoPos, nil
